@@ -96,7 +96,8 @@ def check(case):
     nonuniform = len(set(np.round(np.diff(tp), 12))) > 1
     delayed = any(rx.get("delay") for rx in sp["reactions"])
     res.label("family:" + case["family"], "surface:" + case["surface"], *(["nonuniform_grid"] if nonuniform else []),
-              *(["delayed_part"] if delayed else []))
+              *(["delayed_part"] if delayed else []),
+              *(["rate_that_changes_sign"] if any(rx.get("signed") for rx in sp["reactions"]) else []))
     res.nontrivial = len(sp["reactions"]) >= 2 and (case["family"] != "L" or nonuniform or delayed)
     return res
 
@@ -155,6 +156,14 @@ def nonlinear_net(draw, time_dep):
             else:
                 tree = ["div", ["mul", k, gen.sym(a)], ["add", gen.num(1), ["mul", al, ["t"]]]]
                 rx = gen.general([a], [c] if c != a else [], tree)
+        elif kind == 4 and len(species) >= 2:
+            # lumped reversible law: one reaction whose rate changes sign (equivalent to a <-> c, hence bounded)
+            a = draw(st.sampled_from(species))
+            c = draw(st.sampled_from([s for s in species if s != a]))
+            kf = gen.sym(b.new_param(draw(gen.logfl(0.05, 5))))
+            kr = gen.sym(b.new_param(draw(gen.logfl(0.05, 5))))
+            rx = gen.general([a], [c], ["sub", ["mul", kf, gen.sym(a)], ["mul", kr, gen.sym(c)]])
+            rx["signed"] = True
         else:
             rx = gen.finite_reaction(b, species)
             if rx["type"] in ref.HILL_TYPES:
